@@ -214,6 +214,8 @@ static SAMPLED: Mutex<Vec<String>> = Mutex::new(Vec::new());
 enum TxSpec {
 	/// spend the coinbase of the ancestor at this height
 	SpendCbAt(u64),
+	/// spend the coinbases of the ancestors at these two heights in ONE transaction
+	SpendTwoCb(u64, u64),
 	/// HeightLocked kernel with this lock height, spending any mature coin
 	Locked(u64),
 	/// NRD kernel (scenario kernel key) with this relative height
@@ -278,6 +280,8 @@ fn make_plan(rule: RuleP, s: u64, pair: bool) -> Plan {
 				// coinbases A (created at s-1) and B (created at s)
 				Plan {
 					events: vec![
+						// a mature and an immature coinbase in one transaction (the rule is per input, whichever sorts first)
+						Ev { h: s + 2, dec: Some(("maturity", -1)), tx: TxSpec::SpendTwoCb(s - 1, s) },
 						Ev { h: s + 2, dec: Some(("maturity", -1)), tx: TxSpec::SpendCbAt(s) },
 						Ev { h: s + 2, dec: Some(("maturity", 0)), tx: TxSpec::SpendCbAt(s - 1) },
 						Ev { h: s + 4, dec: Some(("maturity", 1)), tx: TxSpec::SpendCbAt(s) },
@@ -800,6 +804,21 @@ impl<'a> Sim<'a> {
 					FEE,
 					false,
 				)])
+			}
+			TxSpec::SpendTwoCb(ha, hb) => {
+				let a = self.ancestor_at(parent, *ha)?;
+				let b = self.ancestor_at(parent, *hb)?;
+				let ca = self.cb.get(&a)?.clone();
+				let cb = self.cb.get(&b)?.clone();
+				let k = self.next_key();
+				let outs = vec![(ca.value + cb.value - FEE, k)];
+				let (tx, _) = self.w.tx(&mut self.prng, &[ca.clone(), cb.clone()], &outs, KernelFeatures::Plain { fee: fee_fields(FEE) });
+				self.run.count("maturity_decisions_on_one_transaction_spending_a_mature_and_an_immature_coinbase", 1);
+				// which of the two sorts first among the inputs differs from world to world
+				let ins: Vec<grin_core::core::CommitWrapper> = tx.inputs().into();
+				let first_is_immature = ins.first().map(|i| i.commitment() == cb.commit).unwrap_or(false);
+				self.run.count(if first_is_immature { "two_coinbase_inputs.immature_sorts_first" } else { "two_coinbase_inputs.mature_sorts_first" }, 1);
+				Some(vec![tx])
 			}
 			TxSpec::Locked(lock) => {
 				let coin = self.pick_coin(parent, h, &[])?;
@@ -2492,6 +2511,8 @@ fn main() {
 			4,
 		);
 		run.require("scenarios run", run.counter("scenarios_run"), core as u64);
+		run.require("maturity decisions on one transaction spending a mature and an immature coinbase, the mature one sorting first", run.counter("two_coinbase_inputs.mature_sorts_first"), 3);
+		run.require("the same, the immature one sorting first", run.counter("two_coinbase_inputs.immature_sorts_first"), 2);
 		run.require("repeated NRD kernel (4-6 occurrences): scenarios agreeing with the reference rule", run.counter("nrd_repeated.scenarios_agreeing"), run.tier.pick(40, 160));
 		run.require("repeated NRD kernel: reorganisations rewinding two or more occurrences", run.counter("nrd_repeated.reorgs_rewinding_two_or_more_occurrences"), run.tier.pick(10, 40));
 		run.require("repeated NRD kernel: decisions the rule refuses", run.counter("nrd_repeated.decisions.reject"), run.tier.pick(10, 40));
